@@ -140,3 +140,35 @@ def coq_acc_case(d, case):
             cz(e[0]), clist(e[1]), clist(e[2]), cz(e[3]), cz(e[4]), cz(e[5]), cz(e[6]), cz(e[7]),
             cz(e[8][0]), cz(e[8][1]), cz(e[9][0]), cz(e[9][1]))
     return '(%s, %s, %s)' % (clist(labels), coq_forest(d, case), clist(obs, one)), obs
+
+
+# ---------------------------------------------------------------- prune (C07)
+from fractions import Fraction
+
+
+def params_scaled(d, case):
+    """(min_delta scaled, (min_npix num, den)) from d.params."""
+    den = case.get('den') or 2 ** case.get('scale', 0)
+    md = Fraction(float(d.params['min_delta'])) * den
+    if md.denominator != 1:
+        raise ValueError('min_delta %r not on the case grid' % (d.params['min_delta'],))
+    mn = Fraction(float(d.params['min_npix'])).limit_denominator(1000)
+    return (int(md), (mn.numerator, mn.denominator))
+
+
+def coq_params(p):
+    return '(%s, (%s, %s))' % (cz(p[0]), cz(p[1][0]), cz(p[1][1]))
+
+
+def coq_prune_case(case, forest_before, params_before, step, d_after):
+    shape = tuple(case['shape'])
+    n = 1
+    for s in shape:
+        n *= s
+    num, den = step.get('npix', [0, 1])
+    user = '[' + '; '.join(coq_one_crit(c) for c in step.get('crit', [])) + ']'
+    labels = [int(x) for x in d_after.index_map.ravel().tolist()]
+    structs = impl.structs_view(d_after, shape)
+    return '(%d%%nat, %s, %s, %s, (%s, %s), %s, (%s, (%s, %s)))' % (
+        n, forest_before, coq_params(params_before), cz(step.get('delta', 0)), cz(num), cz(den), user,
+        coq_params(params_scaled(d_after, case)), clist(labels), coq_structs(structs))
